@@ -12,6 +12,7 @@ import (
 	"github.com/libsv/go-bt/v2"
 	"github.com/libsv/go-bt/v2/bscript"
 	"github.com/libsv/go-bt/v2/bscript/interpreter"
+	"github.com/libsv/go-bt/v2/bscript/interpreter/scriptflag"
 	"github.com/libsv/go-bt/v2/sighash"
 	"github.com/libsv/go-bt/v2/unlocker"
 
@@ -93,6 +94,9 @@ type c04State struct {
 	getter  *unlocker.Getter   // non-nil: one library getter re-keyed per locking script (wallet style)
 	// withScripts: verifications pass WithScripts next to WithTx
 	withScripts bool
+	// optOrder: how the verifier spells its flags (0 named options only; 1 a signature-policy WithFlags after them;
+	// 2 the same before them; 3 everything in one WithFlags). Options combine, so all four mean the same.
+	optOrder int
 }
 
 var c04Flags = []byte{0x41, 0x42, 0x43, 0xc1, 0xc2, 0xc3, 0x01, 0x02, 0x03, 0x81, 0x82, 0x83}
@@ -225,13 +229,30 @@ func (s *c04State) verifierCopy() *bt.Tx {
 
 // verify executes input i against the presented spent output.
 func (s *c04State) verify(tx *bt.Tx, i int, value uint64, script []byte, flag byte) (bool, string) {
-	opts := []interpreter.ExecutionOptionFunc{interpreter.WithTx(tx, i, &bt.Output{Satoshis: value, LockingScript: scriptPtr(script)}), interpreter.WithAfterGenesis()}
+	opts := []interpreter.ExecutionOptionFunc{interpreter.WithTx(tx, i, &bt.Output{Satoshis: value, LockingScript: scriptPtr(script)})}
+	// policy flags every library-made signature satisfies (canonical DER, low S, defined hash type)
+	policy := scriptflag.VerifyLowS | scriptflag.VerifyDERSignatures | scriptflag.VerifyStrictEncoding | scriptflag.VerifyNullFail
+	if s.optOrder == 2 {
+		opts = append(opts, interpreter.WithFlags(policy))
+	}
+	if s.optOrder == 3 {
+		all := policy | scriptflag.UTXOAfterGenesis
+		if flag&0x40 != 0 {
+			all |= scriptflag.EnableSighashForkID
+		}
+		opts = append(opts, interpreter.WithFlags(all))
+	} else {
+		opts = append(opts, interpreter.WithAfterGenesis())
+	}
 	if s.withScripts && i < len(tx.Inputs) && tx.Inputs[i].UnlockingScript != nil {
 		// a caller that names the scripts explicitly as well (they must match what the transaction carries)
 		opts = append(opts, interpreter.WithScripts(scriptPtr(script), scriptPtr(*tx.Inputs[i].UnlockingScript)))
 	}
-	if flag&0x40 != 0 {
+	if flag&0x40 != 0 && s.optOrder != 3 {
 		opts = append(opts, interpreter.WithForkID())
+	}
+	if s.optOrder == 1 {
+		opts = append(opts, interpreter.WithFlags(policy))
 	}
 	var err error
 	s.c.Exec()
@@ -375,6 +396,7 @@ func (w *c04World) Run(c *kernel.RunCtx) {
 		}
 	}
 	s.withScripts = c.Bool(1, 3)
+	s.optOrder = c.Pick(3, 1, 1, 1)
 	if c.Bool(1, 2) {
 		s.simple = &unlocker.Simple{}
 		s.getter = &unlocker.Getter{}
